@@ -15,6 +15,12 @@ claimed = {
  'C19': dict(level='proof', design='4.19',
    text="CalcTimeout is proved (bit-vector semantics, all 2^64 views, all positive bases) to return Tspec(base, view) = base*2^view saturating at MaxInt64; positivity, monotonicity, exactness and saturation of Tspec are bit-vector lemmas. Timer races and eventual delivery are not decided (runtime scheduling).",
    note="Trusted: govc, z3/cvc5. Assumed: TIMEOUT_EXP_BASE stays 2.0 (no writer in the library: structural check). Not decided: at-most-one trigger, not-before-timeout, Stop-vs-expiry race, eventual delivery."),
+ 'C13': dict(level='proof', design='4.13',
+   text="State.SetHeightAndResetView / SetView / readers are proved for all field values: success implies strict height increase with view reset (resp. non-decreasing view at the same height), failure leaves the state untouched, so the observable (height, view) never decreases lexicographically and the view is reset exactly when the height increases. One-commit-per-term and round ordering obligations on the worker loop are added as their contracts land.",
+   note="Trusted: govc, z3/cvc5. Assumed: sync.RWMutex gives mutual exclusion (A-STD) and only the worker goroutine calls the two setters (structural obligation, being added); receivers non-nil (A-NONNIL)."),
+ 'C15': dict(level='proof', design='4.15',
+   text="The context registry is verified as a data structure for all call orders: For errors iff shut down or below the watermark, otherwise returns the existing context or a fresh child of the parent and changes nothing else; CancelOlderThan (map range with delete) cancels and removes exactly the strictly older positions, keeps all others, raises the watermark monotonically; the invariant 'no context below the watermark' is preserved by both; Shutdown cancels the parent irreversibly. Interleaving with the worker inside an SPI call is not decided.",
+   note="Trusted: govc, z3/cvc5. Assumed: context.WithCancel returns a fresh child (A-STD); cancel functions only record cancellation (ghost set). Not decided: wall-clock 'as soon as', scheduling of the two goroutines."),
 }
 
 na_fixed = {
